@@ -13,4 +13,7 @@ cp "$REPO/go.sum" .work/gomod/harness.sum
 # regenerate every Gen/*.lean from the current repo before the first lake build
 rm -f lean/Gen/*.lean
 for p in $(./bin/harness list); do ./bin/harness extract -prop "$p" -repo "$REPO" -gen "$V/lean/Gen"; done
-(cd lean && lake build Props Drv Audit)
+# Pre-build everything; a module that fails to build must not stop the setup:
+# every check builds (and reports on) its own targets.
+(cd lean && lake build Props Drv Audit) || echo "setup: some Lean targets failed to build; the affected checks will report it" >&2
+exit 0
